@@ -466,6 +466,8 @@ class Interp(object):
                 if c is not None:
                     return c
                 raise Raised("AttributeError: scheme has no attribute '%s'" % attr, node, env.get('__rel__'))
+            if v.kind == 'mock':
+                raise Raised("AttributeError: model object has no attribute '%s'" % attr, node, env.get('__rel__'))
             return Opaque('%s.%s' % (key_of(v), attr))
         if isinstance(v, SuperRef):
             f = self.find_method(v.cls, attr, after=True)
@@ -905,6 +907,7 @@ def _b(fn):
             return fn(*args, **kwargs)
         except TypeError as ex:
             raise Unsupported('%s: %s' % (fn.__name__, ex))
+    w.__name__ = fn.__name__
     return w
 
 
